@@ -25,7 +25,7 @@ func init() {
 			if tier == "thorough" {
 				return "all strings of length <= 4 over 22 symbols and <= 5 over 18 symbols x 4 configurations + 300k documents x lattice + deep nesting up to 20000"
 			}
-			return "all strings of length <= 3 over 22 symbols and <= 4 over 11 symbols x 4 configurations + 12k documents x lattice + deep nesting up to 3000"
+			return "all strings of length <= 4 over 22 symbols under the 2 all-extension configurations, <= 3 under the other 2, and <= 4 over 11 symbols under all 4 + 12k documents x lattice + deep nesting up to 3000"
 		},
 	})
 }
@@ -76,7 +76,10 @@ func genTotal(tier string, rng *RNG, emit func(Case)) {
 		scopes = []scope{{totalAlphabet, 4}, {totalAlphabetSmall, 5}}
 	}
 	for ci := range extremeCfgs {
-		for _, sc := range scopes {
+		for si, sc := range scopes {
+			if tier != "thorough" && si == 0 && (ci == 1 || ci == 2) {
+				sc.n = 4 // the two all-extension configurations get the full 22-symbol alphabet to length 4 in the quick tier as well
+			}
 			enumStrings(sc.alpha, sc.n, func(b []byte) {
 				emit(Case{Op: "x", Args: []string{fmt.Sprint(ci), hx(b)}})
 			})
